@@ -1,6 +1,6 @@
 """Property -> rules table. Each rule callable: (prog, tier, repo) -> [RuleResult]."""
 from .rules import traversal_instances as TI
-from .rules import gate, lookup_unwrap, heap, witness, incremental, optimizer, const_arith, shape, backend, printer_rules, comment_linear, enum_evidence, ssa_shared
+from .rules import gate, lookup_unwrap, heap, witness, incremental, optimizer, const_arith, shape, backend, printer_rules, comment_linear, enum_evidence, ssa_shared, lex_bounds
 
 PROPERTIES = {}
 
@@ -51,8 +51,10 @@ prop('C06', COMMON +
      'annotation of a module (a child that is never visited cannot be rejected). GATE: every lowering step in the '
      'compile entry point is dominated by the no-errors edge of ErrorSet::has_errors(), tested after parsing and '
      'checking on the same ErrorSet, and nobody else calls lowering. ERRSET-SINK: every public report method '
-     'unconditionally inserts into the set has_errors() tests.',
-     [gate.run_gate, gate.run_errset, TI.make(['T-chk', 'T-ssa'])])
+     'unconditionally inserts into the set has_errors() tests. INT-RANGE-REPORT: zone abstract interpretation of the '
+     'lexer\'s integer-literal post-processing - an integer token is produced only on paths that reported an error or '
+     'where the parsed value is proven to fit (checked per incoming path, because the join loses the disjunction).',
+     [gate.run_gate, gate.run_errset, lex_bounds.run_int_range, TI.make(['T-chk', 'T-ssa'])])
 
 prop('C08', COMMON +
      'TRAVERSAL/SIBLING: the pretty-printer reads every expression, pattern, annotation, identifier and literal slot of '
@@ -135,3 +137,16 @@ prop('C04', COMMON +
      'non-constant text pushed between the backticks of a template literal must come through a sanitising callee. Does not '
      'decide agreement of the two runtime libraries (libsam.wat vs the TS prolog).',
      [backend.run_op_table, backend.run_ts_splice])
+
+prop('C05', COMMON +
+     'Clause "none of them panics" for the hand-written byte scanning: LEX-BOUNDS is a zone (difference-bound) abstract '
+     'interpretation of the lexer wrapper over integer locals, slice lengths and iterator ghost counters, with widening at '
+     'loop heads and one narrowing pass; obligations are every BoundsCheck assert, usize subtraction, range slice and '
+     'Lexer::bump in scope, and an unproved obligation or unsupported construct is reported (fail closed). Clause "a '
+     'syntax error is always reported when the parser had to invent tokens": FABRICATE-REPORTS (every placeholder '
+     'identifier / dummy literal / `any` annotation is dominated or post-dominated by a report) and INT-RANGE-REPORT. '
+     'SHAPE-PRODUCER: parser never builds a tree the checker aborts on. Does not decide str char boundaries, '
+     'termination of error recovery, or stack depth.',
+     [lex_bounds.run, lex_bounds.run_int_range, shape.run_fabricate, shape.run_shape],
+     ['lengths of in-memory slices are < 2^63 (usize additions on lengths do not overflow)',
+      'A-05.1: parenthesised lists reaching a Tuple construction are non-empty'])
